@@ -219,7 +219,7 @@ fn main() {
     // (v, emax, cbits)
     let mut spaces: Vec<(usize, usize, u32)> = vec![(1, 4, 2), (2, 4, 2), (3, 4, 2), (4, 3, 2), (4, 4, 1), (5, 3, 1), (4, 4, 2), (6, 3, 1)];
     if ctx.thorough() {
-        spaces.extend([(3, 5, 2), (5, 4, 1), (4, 5, 1), (5, 4, 2), (7, 3, 1)]);
+        spaces.extend([(3, 5, 2), (5, 4, 1), (4, 5, 1), (5, 4, 2), (7, 3, 1), (6, 4, 1), (8, 3, 1)]);
     }
     for &(v, e, c) in &spaces {
         run_space::<usize>(&mut ctx, "usize", v, e, c);
